@@ -11,7 +11,7 @@ Proof.
   apply andb_prop in Hf. destruct Hf as (Hf & _). apply andb_prop in Hb. destruct Hb as (Hb & _).
   apply eqb_prop in Hf. unfold ok_commit, is_write in *.
   destruct (db_of older) as [comm pend].
-  destruct (e_call e) as [| |q| | |]; try destruct q; cbn in *; try reflexivity.
+  destruct (e_call e) as [| |q|q| | |]; try destruct q; cbn in *; try reflexivity.
   - destruct (e_ok e); reflexivity.
   - rewrite <- Hf, Hb. destruct (e_ok e); reflexivity.
   - rewrite Hc. reflexivity.
